@@ -93,6 +93,11 @@ CLAIMED = {
             "PARTIAL CLAIM. Decided: members using different providers form one working group on suites 1, 2, 3 and 7 (C01 agreement, C08 tree and bounded-liveness oracles over the mixed group: signatures, HPKE ciphertexts and set-ups, Welcome and PSK material made by one provider are consumed by the others); on every hash, MAC, KDF extract / expand, AEAD seal / open, deterministic KEM derivation, signature-key derivation, HPKE open (base and PSK mode), HPKE receiver set-up, KEM public-key validation and signature verification the protocol performs - including the malformed inputs that corrupted traffic pushes into verify / open / validate - the primary and the cross provider must return identical bytes or the identical accept / reject decision; every signature the primary makes must verify under the cross provider and every generated KEM key must open what the cross provider seals to it. NOT decided here: input lengths the protocol never produces (a pure-function sweep, outside this family) and the X.509 validators (no certificate scenario was built).",
             "trusted: the differential wrapper (crypto.rs); runs on OpenSSL / AWS-LC are not bit-reproducible (their DRBGs), the replay file reproduces the schedule and, for deterministic primitives, the disagreement",
             "DESIGN.md §6.C14"),
+    "C12": ("exploration",
+            "deterministic simulation with corruption faults at the transport and storage seams: every byte string the library hands to the simulated network or disk is round-tripped, and seeded corrupted copies (bit flip, truncation, huge and non-minimal length prefixes, out-of-range discriminants, appended tails, random strings, flipped stored bytes) are decoded under catch_unwind and a counting global allocator",
+            "PARTIAL CLAIM. Decided, for every value that crosses a seam in a simulated run - MlsMessage of every kind (commit, proposal, application, Welcome, GroupInfo, key package; public and private), exported trees, CommitSecrets, ExternalSnapshot, stored snapshots and epoch records; group sizes pushed past the 64 B and 16 KiB varint boundaries: decode(encode(v)) re-encodes to the same bytes, consumes exactly the bytes written, and the reported encoded length equals the byte count. For every corrupted copy: no panic, peak allocation during the decode <= 1024 x input + 64 KiB, and if it decodes the value re-encodes to exactly the consumed prefix (which also rules out non-minimal varints and prefixes reaching beyond the input). A flipped stored byte never makes load_group panic or over-allocate. NOT decided: 'for every value of a wire type whatsoever' - structural generation of arbitrary values of all derive-macro types is input generation without schedule or fault and is outside this family.",
+            "trusted: the counting allocator (thread-local, only active around the decode call); one known finding (non-canonical map order accepted in ExternalSnapshot) listed in known_findings.json",
+            "DESIGN.md §6.C12"),
 }
 
 NOT_APPLICABLE = {
